@@ -102,6 +102,25 @@ class C17Check(object):
         if run < len(refs):
             return refs[run]
         run -= len(refs)
+        if run % 6 == 5:
+            # the invariant inside a history: FMM-mode values observed after cache hits and misses, parameter
+            # changes, cache clears and peer variations are compared with the DENSE counterpart of a fresh process
+            from checks import c18
+
+            h = c18.C18Check()
+            h.prop = "C17H"
+            h.tier = self.tier
+            case = h.generate_history(seed, run // 6)
+            case["enable"]["F3"] = False
+            case["ops"] = [o for o in case["ops"] if o["t"] != "arm_peer_fault"]
+            for o in case["ops"]:
+                if o["t"] == "create_op" and o["spec"]["family"] != "sparse" and o.get("assembler") != "only_singular_part":
+                    o["assembler"] = "fmm"
+                    o["precision"] = None
+                if o["t"] == "create_pot":
+                    o["assembler"] = "fmm"
+            case["kind"] = "history"
+            return case
         r = rng.stream(seed, PROP, run, "input")
         kind, family, opnames = PROFILES[run % len(PROFILES)]
         op = r.choice(list(opnames))
@@ -206,6 +225,13 @@ class C17Check(object):
                 self._exec_potential(case, out, exafmm)
             elif case["kind"] == "reference":
                 self._exec_reference(case, out, exafmm)
+            elif case["kind"] == "history":
+                from checks import history
+
+                eng = history.Engine(case, out, oracle="fresh_dense")
+                eng.run()
+                out.probe("history_runs")
+                out.sample = {"history": [o["t"] for o in case["ops"]], "bundle": case["bundle"]}
             else:
                 raise ValueError(case["kind"])
         finally:
@@ -468,6 +494,16 @@ class C17Check(object):
     def minimise(self, case, violation):
         """Greedy simplification of the configuration while the same violation kind persists."""
         import copy
+
+        if case.get("kind") == "history":
+            from checks import c18
+
+            h = c18.C18Check()
+            h.oracle = "fresh_dense"
+            h.execute = self.execute
+            return h.minimise(case, violation)
+        if case.get("kind") == "reference":
+            return None
 
         kind = violation["kind"]
 
